@@ -213,6 +213,7 @@ type stepLog struct {
 	Request  string    `json:"request"`
 	Body     string    `json:"request_body,omitempty"`
 	Fault    string    `json:"fault,omitempty"`
+	Fired    int       `json:"faults_fired,omitempty"`
 	Status   int       `json:"status"`
 	Location string    `json:"location,omitempty"`
 	RespBody string    `json:"response_body,omitempty"`
@@ -235,7 +236,7 @@ type caseCtx struct {
 	sample bool
 	// a request with a URI that is not allowed was accepted at /authorize: reported once, after the rest of the
 	// chain has been played, so that the witness shows where the user agent finally ended up
-	pendKey, pendWhat string
+	pendKey, pendWhat, pendWhy string
 }
 
 var otherClient = func() *vclient.Client {
@@ -385,9 +386,10 @@ func (cx *caseCtx) exec(spec chainSpec, router int) {
 	do := func(phase string, req *http.Request, lit, body string, f *fault) (*opdrv.Resp, *stepLog) {
 		w.Store.Arm(f.plan())
 		resp := w.Do(router, req)
+		fired := w.Store.Fired()
 		w.Store.Arm(nil)
 		sl := stepLog{Phase: phase, Request: req.Method + " " + lit, Body: brief(body, 6000), Status: resp.Status, Location: brief(resp.Location(), 6000),
-			RespBody: brief(resp.Body.String(), 400)}
+			RespBody: brief(resp.Body.String(), 400), Fired: fired}
 		if f != nil {
 			sl.Fault = fmt.Sprintf("%+v", *f)
 		}
@@ -414,8 +416,9 @@ func (cx *caseCtx) exec(spec chainSpec, router int) {
 
 	defer func() {
 		if cx.pendKey != "" {
-			run.Violation(cx.pendKey, int64(cx.idx), cx.pendWhat, witness())
-			cx.pendKey, cx.pendWhat = "", ""
+			// pendWhy: the reason of the candidate the library really used, once a later step revealed it
+			run.Violation(cx.pendKey+cx.pendWhy, int64(cx.idx), cx.pendWhat, witness())
+			cx.pendKey, cx.pendWhat, cx.pendWhy = "", "", ""
 		}
 	}()
 
@@ -492,6 +495,7 @@ func (cx *caseCtx) judge(rn, phase string, spec chainSpec, resp *opdrv.Resp, sl 
 	violate := func(class, what string) {
 		if cx.pendKey != "" && phase != "authorize" && strings.Contains(class, "-unregistered:") {
 			sl.Outcome = "VIOLATION (consequence of the accepted request) " + class
+			cx.pendWhy = class[strings.Index(class, "-unregistered:")+len("-unregistered:"):]
 			run.Count("violation_consequences", rn+" "+class)
 			return
 		}
@@ -546,7 +550,7 @@ func (cx *caseCtx) judge(rn, phase string, spec chainSpec, resp *opdrv.Resp, sl 
 				return outcome("login-redirect")
 			}
 			if !anyOK {
-				cx.pendKey = "C03:" + rn + ":accepted-unregistered:" + firstWhy
+				cx.pendKey, cx.pendWhy = "C03:"+rn+":accepted-unregistered:", firstWhy
 				cx.pendWhat = fmt.Sprintf("authorization request with redirect_uri %q (oracle: %s) was accepted and the user agent was redirected to the login UI; the statement demands a direct error page (see the later steps for where the user agent was finally sent)", cands, firstWhy)
 				sl.Outcome = "VIOLATION accepted-unregistered:" + firstWhy
 				run.Count("outcome:"+rn, "authorize login-redirect-for-unregistered")
@@ -613,10 +617,17 @@ func (cx *caseCtx) judge(rn, phase string, spec chainSpec, resp *opdrv.Resp, sl 
 		}
 	}
 	if ok == nil {
+		// several requested values can denote the same target: report the one that came closest to being allowed
 		m := matched[0]
+		for _, x := range matched[1:] {
+			if whyRank(x.Why) > whyRank(m.Why) {
+				m = x
+			}
+		}
 		why := m.Why
-		if m.GlobErr && phase == "authorize" && errCode == "server_error" && spec.AuthFault == nil && spec.RO == nil && spec.Trigger != "request-junk" {
-			// D20: a malformed opted-in pattern made the match itself fail, and that failure was redirected
+		if m.GlobErr && phase == "authorize" && errCode == "server_error" && sl.Fired == 0 {
+			// D20: no injected fault fired, so the server_error can only be the failed match of a malformed opted-in
+			// pattern - and it was redirected
 			why = "glob-match-error"
 		}
 		violate(delivery+"-unregistered:"+why, fmt.Sprintf("user agent sent (%s) to %q; redirect_uri %q is not allowed for this client (%s)", what, brief(target, 300), m.URI, m.Why))
